@@ -802,6 +802,66 @@ def run(pid, tier, replay=None):
     else:
         return machinery_failure(pid, "unknown property for the ledger family")
 
+    if pid in ("C01", "C02", "C05"):
+        # ---- the verdict of full validation is a function of (block, chain, clock) -- also while the miner's thread assembles a candidate
+        #      from the same chain state and a pending transaction (Interfere.tla; preemption-point exploration on real threads)
+        from checks import interfere
+        from checks import node as nodechk
+        from checks.store import cb as cbd, tx as txd, blk as blkd
+        rc_ = interfere.design(chk, pid)
+        if rc_:
+            return rc_
+        cfg_i = sk.Cfg(**nodechk.MODEL_CFG)
+        sk.apply_cfg(cfg_i)
+        wi, gi, bi, ti = nodechk.build_universe(cfg_i, keys)
+        x_wrongkey = wi.concretise(blkd(11, 1, 2, [cbd(11, 2, 4), dict(txd(111, [(0, 0, 2)], [(8, 2)]), mut="wrongkey")]), owners={1: {0: 1}})
+        x_ts = wi.concretise(dict(blkd(12, 1, 2, [cbd(12, 2, 4)]), ts=bi[1].timestamp))
+        cs_i = wi.T["CoinState"].empty().add_block_no_validation(gi).add_block_no_validation(bi[1])
+        import skepticoin.consensus as c_i
+        from skepticoin.signing import SECP256k1PublicKey as PK_i
+        offered = [bi[7], x_wrongkey, x_ts, bi[2]]          # reward above subsidy + fees; spend not authorised by the owner; timestamp not later than the parent's; valid
+        now_i = bi[2].timestamp + 5
+
+        def fa():
+            out = []
+            for x_ in offered:
+                try:
+                    cs_i.add_block(x_, now_i)
+                    out.append("accepted")
+                except Exception as e_:
+                    out.append(sk.rule_of_exception(e_))
+            return out
+
+        def fb():
+            summ, h_, txs_ = c_i.construct_block_pow_evidence_input(cs_i, [ti[1002]], PK_i(keys.pub[2]), now_i, b"", 7)
+            return (summ.serialize().hex(), [o.value for o in txs_[0].outputs], len(txs_))
+        ref = fa()
+        if ref[:3].count("accepted") or ref[3] != "accepted":
+            return machinery_failure(pid, "interference scenario: sequential verdicts are %s" % ref)
+        itr = interfere.explore_pair(chk, pid, "verdict_of_full_validation", fa, fb, quick, rng, max_points=60 if quick else 2000)
+        # the rule this property is about, alone, with EVERY preemption point explored
+
+        def verdict(f_, *a_):
+            try:
+                f_(*a_)
+                return "passes"
+            except Exception as e_:
+                return sk.rule_of_exception(e_)
+        u_i = cs_i.unspent_transaction_outs_by_hash[bi[1].hash()]
+        if pid == "C02":
+            def ff():
+                return [verdict(c_i.validate_coinbase_transaction_in_coinstate, x_.transactions[0], x_, cs_i) for x_ in (bi[7], bi[2])] + \
+                       [c_i.get_block_fees(bi[2], u_i), c_i.get_block_subsidy(2)]
+        elif pid == "C01":
+            def ff():
+                return [verdict(c_i.validate_non_coinbase_transaction_in_coinstate, t_, bi[1].hash(), cs_i) for t_ in (x_wrongkey.transactions[1], bi[2].transactions[1])]
+        else:
+            def ff():
+                return [verdict(c_i.validate_block_summary_in_coinstate, x_.header.summary, cs_i) for x_ in (x_ts, bi[2])] + \
+                       [c_i.calc_target(cs_i, 2, now_i, bi[1]).hex()]
+        itr2 = interfere.explore_pair(chk, pid, "verdict_of_the_rule", ff, fb, quick, rng, max_points=4000)
+        interfere.judge(chk, itr + itr2, pid)
+        sk.restore_cfg()
     if chk.traces_validated == 0:
         return machinery_failure(pid, "no trace was validated")
     return chk.finish()
